@@ -196,6 +196,12 @@ fn cmp_pair(col: &mut TCol, x: &[u8], y: &[u8], xb: &[(&'static str, Bytes)], yb
             if Ord::cmp(l, r) != x.cmp(y) {
                 col.viol("C14", "cmp", "Bytes", "Bytes", format!("x={:02x?} y={:02x?}", x, y), replay14(x, y));
             }
+            // provided Ord methods must agree with cmp
+            let mx = Ord::max(l.clone(), r.clone());
+            let mn = Ord::min(l.clone(), r.clone());
+            if &mx[..] != x.max(y) || &mn[..] != x.min(y) {
+                col.viol("C14", "max/min", "Bytes", "Bytes", format!("x={:02x?} y={:02x?}", x, y), replay14(x, y));
+            }
         }
         for (rn, r) in ym {
             chk_eq!(col, Bytes, BytesMut, l, r, x, y, "Bytes", "BytesMut", ln, rn);
@@ -313,8 +319,9 @@ fn universe() -> Vec<Vec<u8>> {
 }
 
 fn pair_strategy() -> BoxedStrategy<(Vec<u8>, Vec<u8>)> {
-    let bytes = proptest::collection::vec(any::<u8>(), 0..40);
-    let ascii = proptest::collection::vec(0x20u8..0x7f, 0..40);
+    // mostly short; one in ten up to 600 bytes (hashing and comparison of long inputs, differences far from the start)
+    let bytes = prop_oneof![9 => proptest::collection::vec(any::<u8>(), 0..40), 1 => proptest::collection::vec(any::<u8>(), 40..600)];
+    let ascii = prop_oneof![9 => proptest::collection::vec(0x20u8..0x7f, 0..40), 1 => proptest::collection::vec(0x20u8..0x7f, 40..300)];
     prop_oneof![
         // independent
         (bytes.clone(), bytes.clone()),
@@ -324,6 +331,13 @@ fn pair_strategy() -> BoxedStrategy<(Vec<u8>, Vec<u8>)> {
         (bytes.clone(), proptest::collection::vec(any::<u8>(), 1..5)).prop_map(|(x, t)| {
             let mut y = x.clone();
             y.extend(t);
+            (x, y)
+        }),
+        // long common prefix, differ in one late byte (sign-of-byte and length-first shortcuts)
+        (proptest::collection::vec(any::<u8>(), 64..200), any::<u8>(), any::<u16>()).prop_map(|(x, d, at)| {
+            let mut y = x.clone();
+            let n = 3 + (at as usize) % (y.len() - 3);
+            y[n] = y[n].wrapping_add(d | 0x80);
             (x, y)
         }),
         // differ in the last byte
